@@ -133,7 +133,7 @@ def p_norm_contract(p_kind):
         MOD, "_p_norm", make_args, requires=requires, ensures=ensures, definedness="P",
         loops={0: LoopContract("for l in", inv_outer, cls="P"),
                1: LoopContract("for [[x0, y0], [x1, y1]] in", inv_inner, cls="P")},
-        hints=[("b = y0 - slope * x0", hints), ("z = -b / slope", hints_z)],
+        hints=[("b = y0 - slope * x0", hints)],
         variant="p=%s" % p_kind)
 
 
